@@ -89,6 +89,7 @@ package lfs
 //@   requires @inv reader != nil && reads_ok(reader)
 //@   ensures err_cleanptr(err) ==> err_ctxbytes(err) == old(rrest(reader)) && len(old(rrest(reader))) < 1024
 //@   ensures err_cleanptr(err) && len(old(rrest(reader))) > 0 ==> decodes_ok(str_trim(old(rrest(reader))))
+//@   ensures len(old(rrest(reader))) > 0 && len(old(rrest(reader))) < 1024 && decodes_ok(str_trim(old(rrest(reader)))) ==> err_cleanptr(err) || tmp == nil
 //@   ensures err == nil ==> tmp != nil && fdata(fpath(tmp)) == old(rrest(reader)) && oid == hexsha(old(rrest(reader))) && size == len(old(rrest(reader)))
 //@   ensures err == nil ==> !isobj(fpath(tmp))
 //@   ensures forall_v(q, isobj(q), isobj(q) ==> fexists(q) == old(fexists(q)) && fdata(q) == old(fdata(q)))
